@@ -171,7 +171,7 @@ Definition eval_scalar (defined : list Z) (t : tyc) (v : value) : bool :=
       (if d then memZ n defined else true)
       && (match cin with [] => true | _ => memZ n cin end)
       && negb (memZ n cnotin)
-  | CTimestamp, VMsg _ => true
+  | CTimestamp _ _, VMsg _ => true     (* j5 emits no bound; bounds are not modelled *)
   | _, _ => true
   end.
 
@@ -275,14 +275,14 @@ End Sem.
 (* ---- typing of values against a declaration ------------------------------- *)
 Definition is_msg_ty (t : fty) : bool :=
   match t with
-  | TDate _ _ | TDecimal _ _ | TTimestamp _ | TAny _ _ _ | TObject _ | TOneof _ => true
+  | TDate _ _ | TDecimal _ _ | TTimestamp _ _ | TAny _ _ _ | TObject _ _ | TOneof _ _ => true
   | _ => false
   end.
 
 Definition value_typed (t : fty) (v : value) : bool :=
   match t, v with
   | TInt _ _ _, VInt _ | TBytes _, VBytes _ | TBool _ _, VBool _
-  | TEnum _ _, VEnum _ | TFloat _ _, VFloat _ => true
+  | TEnum _ _, VEnum _ | TFloat _ _ _, VFloat _ => true
   | TStr _ _ _, VStr s | TKey _ _ _, VStr s => forallb is_scalar s    (* proto3 strings are valid UTF-8 *)
   | t, VMsg _ => is_msg_ty t
   | _, _ => false
